@@ -2,7 +2,7 @@
 # usage: confirm_mut.sh <PROP> <k>   -- confirm a sub-agent's seeded change against the current /repo HEAD in a scratch worktree,
 # then store it under /verif/seeded/<PROP>-m<k>/
 export GOFLAGS=-mod=mod GOPROXY=off GOSUMDB=off GOTOOLCHAIN=local
-P=$1; K=$2; TAGS=${3:-}
+P=$1; K=$2; TAGS=${3:-}; EXTRA=${4:-}
 src=/tmp/mut-$P/out
 wt=/tmp/confirm-$P-$K
 rm -rf $wt; git -C /repo worktree prune; git -C /repo worktree add -q --detach $wt HEAD || exit 2
@@ -18,9 +18,9 @@ if git apply --3way $src/m$K.diff 2>/dev/null; then
   suite=$(go test -vet=off -count=1 ./... 2>&1 | grep -- "^--- FAIL" | grep -v "TestSaveLoadNumpy" | tr '\n' ' ')
   res="$res suite_fail=[${suite}]"
   cp $src/m${K}_demo_test.go $demo_dir/zz_mutdemo_test.go
-  if go test -vet=off -count=1 -tags "$TAGS" -run "TestMutDemo${P}m${K}\$" ./$demo_dir >/tmp/confirm-$P-$K.demo1 2>&1; then res="$res demo_with=PASS(bad)"; else res="$res demo_with=FAIL(good)"; fi
+  if go test $EXTRA -vet=off -count=1 -tags "$TAGS" -run "TestMutDemo${P}m${K}\$" ./$demo_dir >/tmp/confirm-$P-$K.demo1 2>&1; then res="$res demo_with=PASS(bad)"; else res="$res demo_with=FAIL(good)"; fi
   git checkout -q -- . 
-  if go test -vet=off -count=1 -tags "$TAGS" -run "TestMutDemo${P}m${K}\$" ./$demo_dir >/tmp/confirm-$P-$K.demo2 2>&1; then res="$res demo_without=PASS(good)"; else res="$res demo_without=FAIL(bad)"; fi
+  if go test $EXTRA -vet=off -count=1 -tags "$TAGS" -run "TestMutDemo${P}m${K}\$" ./$demo_dir >/tmp/confirm-$P-$K.demo2 2>&1; then res="$res demo_without=PASS(good)"; else res="$res demo_without=FAIL(bad)"; fi
 fi
 echo "$P m$K: $res"
 ok=0
